@@ -375,6 +375,8 @@ P('fam_aggs', ['relation g(i32, i32, i32)', 'relation k(i32)', 'relation o1(i32,
    'o7(a, b) <-- k(z), agg (a, b) = second_pair(v, w) in g(z, v, w)'],
   pre='   pub fn second_pair<\'a>(inp: impl Iterator<Item = (&\'a i32, &\'a i32)>) -> std::vec::IntoIter<(i32, i32)> { inp.map(|(a, b)| (*a, *b)).take(1).collect::<Vec<_>>().into_iter() }',
   tags=['family', 'agg'])
+both('agg_rep', ['relation foo(i32, i32)', 'relation m(i32)', 'relation g(i32, i32, i32)', 'relation k(i32)', 'relation s(i32, i32)', 'relation c(usize)'],
+     ['m(v) <-- agg v = min(y) in foo(y, y)', 's(x, t) <-- k(x), agg t = sum(y) in g(x, y, y)', 'c(n) <-- agg n = count() in g(_, _, _)'], tags=['agg', 'agg_rep'])
 # chains of strata with negation / aggregation in between, recursion on both sides
 both('fam_chain', [E2, 'relation a(i32)', 'relation b(i32)', 'relation c(i32)', 'relation d(i32, usize)', 'relation s(i32)'],
      ['a(x) <-- s(x)', 'a(y) <-- a(x), edge(x, y)', 'b(x) <-- edge(x, _), !a(x)', 'b(y) <-- b(x), edge(x, y)',
